@@ -239,6 +239,87 @@ def restore (E : Ext) (s : Bytes) : RestoreRes :=
               | .error e => .err e
               | .ok (ws, r) => if r ≠ [] then .err .trailingData else .ok (body.take dbh.size) ws
 
+/-! ### what is on disk if the process dies during `Sink.Close` (the "or nothing" half)
+
+All data is written into `<id>.tmp`; `Sink.Close` then runs the steps below in this order
+(regenerated from the source into Gen/SinkClose.lean). `Store.check` at the next start removes
+every `*.tmp` directory, and the catalog lists only non-tmp directories. -/
+
+structure SnapDir where
+  hasData     : Bool   -- every data file complete and verified against the header
+  hasSidecars : Bool   -- CRC sidecars written
+  hasMeta     : Bool   -- meta.json written
+deriving DecidableEq, Repr
+
+structure Disk where
+  tmp   : Option SnapDir
+  final : Option SnapDir
+deriving DecidableEq, Repr
+
+inductive CloseStep
+  | closeFiles   -- FullSink.Close: validity + CRC checks, then the sidecars (incremental: WAL dir moved in)
+  | writeMeta
+  | syncTmp
+  | rename       -- os.Rename(<id>.tmp, <id>)
+  | clearFlag    -- ClearFullNeeded / SetDueNext
+  | syncRoot
+deriving DecidableEq, Repr
+
+def closeSteps : List CloseStep := [.closeFiles, .writeMeta, .syncTmp, .rename, .clearFlag, .syncRoot]
+
+def applyClose (d : Disk) : CloseStep → Disk
+  | .closeFiles => { d with tmp := d.tmp.map (fun t => { t with hasSidecars := true }) }
+  | .writeMeta => { d with tmp := d.tmp.map (fun t => { t with hasMeta := true }) }
+  | .rename => { tmp := none, final := d.tmp }
+  | _ => d
+
+/-- the disk when Close is entered: everything received and verified sits in the tmp directory -/
+def diskAtClose : Disk := { tmp := some ⟨true, false, false⟩, final := none }
+
+/-- the process dies after the first `k` steps -/
+def crashAfter (k : Nat) : Disk := (closeSteps.take k).foldl applyClose diskAtClose
+
+/-- `Store.check` at the next start: tmp directories are removed; what the catalog can list -/
+def visibleAfterRestart (d : Disk) : Option SnapDir := d.final
+
+def SnapDir.complete (s : SnapDir) : Bool := s.hasData && s.hasSidecars && s.hasMeta
+
+/-- source call names of `Sink.Close` (after the sink-specific part) → steps -/
+def closeStepOfCall (c : String) : Option CloseStep :=
+  if c = "Close" then some .closeFiles
+  else if c = "writeMeta" then some .writeMeta
+  else if c = "SyncDirMaybe" then some .syncTmp   -- first occurrence; see `close_order_fact`
+  else if c = "Rename" then some .rename
+  else if c = "ClearFullNeeded" then some .clearFlag
+  else none
+
+/-! the incremental-file path of `Sink.Close`: no data travels in the stream; the local WAL
+directory named by the header is renamed into `<id>.tmp/wal-incoming`, its WAL files (with
+their sidecars) are moved up into `<id>.tmp`, the emptied directory is removed, then the
+common tail (writeMeta, sync, rename into place, sync). -/
+
+structure IncDisk where
+  source : Bool            -- the local WAL directory still holds the WAL files
+  tmpHasWals : Bool        -- the WAL files are (somewhere) under <id>.tmp
+  tmpHasMeta : Bool
+  installed : Option Bool  -- final directory exists; `some true` = with WAL files and meta.json
+deriving DecidableEq, Repr
+
+inductive IncStep
+  | moveDirIn | moveFilesUp | removeEmptied | writeMeta | syncTmp | rename | syncRoot
+deriving DecidableEq, Repr
+
+def incSteps : List IncStep := [.moveDirIn, .moveFilesUp, .removeEmptied, .writeMeta, .syncTmp, .rename, .syncRoot]
+
+def applyInc (d : IncDisk) : IncStep → IncDisk
+  | .moveDirIn => { d with source := false, tmpHasWals := true }
+  | .writeMeta => { d with tmpHasMeta := true }
+  | .rename => { d with tmpHasWals := false, tmpHasMeta := false, installed := some (d.tmpHasWals && d.tmpHasMeta) }
+  | _ => d
+
+def incCrashAfter (k : Nat) : IncDisk :=
+  (incSteps.take k).foldl applyInc { source := true, tmpHasWals := false, tmpHasMeta := false, installed := none }
+
 /-! ### transport compression (store/transport.go, internal/rarchive/zstd)
 
 Sender (`NodeTransport.InstallSnapshot` with compression): wire = 8-byte big-endian
@@ -312,6 +393,7 @@ def validWalC (b : Bytes) : Bool :=
 `sink <dueFull 0|1>` → ok;  `write <hex>` → ok | err-…;  `close` → outcome
 `restore <hex>` → `ok <dbhex> <walhex,…|->` | err-…
 `crc <hex>` → decimal CRC-32C
+`crash <k>` → none | complete | partial  (what the store lists after a restart if the process died after k steps of Sink.Close)
 `recv <raftSize> <wirehex> <decoder output hex> <clean 0|1>` → `ok|err <deliveredhex>` (the harness says what
    the real zstd decoder yields on the bytes after the 8-byte size; the model applies the size / limit logic) -/
 
@@ -406,6 +488,13 @@ def step (s : DState) (line : String) : DState × String :=
       let r := recvWire ⟨fun x => x, fun _ => (out, clean)⟩ rs w
       (s, (if r.err then "err " else "ok ") ++ hexOfBytes r.delivered)
     | _, _, _, _ => (s, "bad-op")
+  | ["crash", k] =>
+    match k.toNat? with
+    | some k =>
+      (s, match visibleAfterRestart (crashAfter k) with
+        | none => "none"
+        | some d => if d.complete then "complete" else "partial")
+    | none => (s, "bad-op")
   | ["crc", b] =>
     match tokBytes b with
     | some b => (s, toString (crc32c b))
